@@ -52,6 +52,11 @@ CHECKS = {
         note="partial: hash seeding of the real runtime is covered by the inventory translator + multi-process comparison (8 fresh processes x 8 encodings per case), not by a theorem; dependencies' internal hash use is covered by the byte comparison only; macro front-end emulated in quick tier, real macro expansion in thorough tier",
         technique="Coq theorems over an executable model with an explicit enumeration-order argument per hash site (Permutation-invariance) + syn inventory translator + multi-process byte comparison",
         design="DESIGN 4 C12, notes/C12.md"),
+    "C11": dict(
+        text="proof (for every type space, every string-wired type and every string) on the model: FromStr = Deserialize in verdict and value, TryFrom x3 = FromStr, Display = serialised string outside the recorded chrono class, untagged enums try variants in declaration order on both sides; correspondence to compiled code on the explored world",
+        note="no axioms; hypotheses wf_conv (checked true on every explored dump) and A1 (native FromStr = Deserialize, validated per run against the compiled uuid/chrono/std::net); Display theorem excludes one recorded finding class (chrono DateTime Display, C11-F2) with a refutation witness replayed on the real code; C11-F1 (brace raw names) repaired by fix a0ebad5",
+        technique="Coq proof over an executable model of the FromStr/TryFrom/Display templates and of serde's string (de)serialisation (Algo/StrConv.v), tied each run to compiled generated code by a per-probe correspondence (parse, try_from x3, deserialize, Display, chosen variant, emitted impls) with regex verdicts from the real regress crate; plus direct evaluation of the property on the compiled code",
+        design="DESIGN 4 C11, notes/C11.md"),
 }
 
 NOT_YET = "not yet built in this round (planned, see DESIGN.md section 7)"
